@@ -4,16 +4,25 @@ Proof: PsV/Props/C08.lean
   control flow  C08_success_implies_all_ok, C08_mem_success_implies_all_ok, C08_cwrapper_zero_implies_all_ok,
                 C08_close_error_swallowed (witness for the code as found), C08_close_error_reported,
                 C08_keys_before_data (+ C08_keys_after_data_as_found, witness for the call order as found)
-  bytes         C08_reader_prefix_stable, C08_prefix_safe_partial, C08_roundtrip_instance, C08_prefix_safe_tiny
+  bytes         C08_reader_prefix_stable, C08_roundtrip (all well-formed tables), C08_write_reads_back, C08_prefix_safe
+                (unconditional; C08_prefix_safe_partial, C08_roundtrip_instance, C08_prefix_safe_tiny kept)
+  disk          C08_failing_call_is_reported, C08_write_fault_is_reported, C08_failure_leaves_no_file,
+                C08_single_fault_leaves_no_other_table, C08_success_file_complete (Model/FitsCrash.lean: every call issues
+                arbitrary libc operations, each may fail or write short; create/delete/remove act on the file name)
+  crash         C08_crash_states_are_prefixes, C08_crash_safe, C08_previous_table_is_not_preserved
 Tie (harness/c08_harness.cpp, libc + cfitsio interposition, real code in-process):
-  * encoder: PsV.C08.encode t is byte-identical to the file cfitsio writes (length + FNV-1a of every generated table),
-    and readCoreBytes (encode t) = t.core is evaluated for every generated table (hypothesis of C08_prefix_safe_partial);
+  * encoder: PsV.C08.encode t is byte-identical to the file cfitsio writes (length + FNV-1a of every generated table);
+    Table.wf t (hypothesis of C08_roundtrip / C08_prefix_safe / C08_crash_safe) is evaluated for every generated table
+    (wf=1), as is the round trip itself (rt=1, now a consequence); the recorded operation log of every table is checked
+    to write front to back with the encoding as its result (ao=1 fin=1: the other hypotheses of C08_crash_safe);
   * reader: verdict of the REAL reader on every crash-state file (op prefixes, partial last op, byte prefixes), on
     every zeroed-block file and on mutated files (knot vectors / ORDERn / knot counts replaced: the reader's validation)
     against PsV.C08.readBytes on the same bytes; relation: equal verdicts, except that the model may accept
     (as equal) a state the implementation rejects (only conservative direction; counted);
   * control flow: for every injected libc fault and every injected cfitsio step failure the statuses every cfitsio call
-    returned are fed to writeFits/writeFitsMem/cWrapper; reported outcome and the sequence of calls must coincide.
+    returned are fed to writeFits/writeFitsMem/cWrapper; reported outcome and the sequence of calls must coincide, and
+    so must "file / no file" under the name afterwards (diskAfter); for every libc fault the call in which the failing
+    operation was issued (or a later one) must report an error (contract Surfaces).
 Oracle (independent of the model): reported success => the file on disk (buffer) reads back equal; no file left behind
 reads as a different table; no crash-state file (K, B, P) reads as a different table.
 Zeroed-block files (Z) are not crash states: they are no prefix of the op log and the writer never creates holes (measured:
@@ -76,8 +85,11 @@ def run(ctx):
                 broken("encoder: model bytes differ from the file cfitsio wrote", table=tdesc, impl=iw[1:3], model=mw[1:3])
             else: bump("encoder_byte_identical")
             if mw[3] != "rt=1":
-                broken("round-trip hypothesis of C08_prefix_safe_partial fails for a generated table", table=tdesc)
+                broken("round trip readCoreBytes (encode t) = t.core fails for a generated table (contradicts C08_roundtrip unless wf=0)", table=tdesc, model=mw[3:])
             else: bump("model_roundtrip_ok")
+            if len(mw) < 5 or mw[4] != "wf=1":
+                broken("a generated table (written and read back by the real code) is not well-formed per Table.wf, the hypothesis of C08_roundtrip / C08_prefix_safe / C08_crash_safe", table=tdesc)
+            else: bump("model_wf_ok")
             if kv.get("healthy") != "eq" or kv.get("ret") != "0" or "x1" not in i.split("healthy=")[1][:6]:
                 report("healthy-write-does-not-read-back", {"table": tdesc, "impl": i}, "a write without any fault did not read back equal: " + i)
             mm = i.split("mem=")[1].split()
@@ -96,6 +108,11 @@ def run(ctx):
                     if shift_at is None: shift_at = len(ops)
                 fsize = max(fsize, off + ln)
             ops.append(w[1]); bump("ops")
+        elif k == "A":
+            # hypotheses of C08_crash_safe on the operation log recorded for this table
+            if m != "ao=1 fin=1":
+                broken("the recorded operation log does not write the file front to back, or its result is not the model's encoding (hypotheses of C08_crash_safe: appendOnly, applyOps = encode)", table=tdesc, model=m)
+            else: bump("oplog_append_only_and_complete")
         elif k in "KBPZX":
             evals += 1; bump("crash_" + k if k != "X" else "mutated_files")
             mutkind = None
@@ -123,7 +140,7 @@ def run(ctx):
             evals += 1
             kv = _kv(i); tag = kv.get("tag", "?"); fv = i.split("file=")[1].split(" tag=")[0]
             variant = c.split()[1]
-            new, old = m.split(" | old "); old, pre3 = old.split(" | pre3 ")
+            new, old = m.split(" | old "); old, pre3 = old.split(" | pre3 "); pre3, mdisk = pre3.split(" | disk ")
             got = "ret=%s steps=%s" % (kv.get("ret"), kv.get("steps", ""))
             kind = re.sub(r"@\d+$", "", tag)
             rep = {"table": tdesc, "entry_point": variant, "fault": tag, "impl": i, "model_repaired": new, "model_as_found": old, "line": n}
@@ -139,6 +156,23 @@ def run(ctx):
             elif kv.get("ret") != "0" and fv == "diff":
                 report("failed-write-leaves-different-table:" + kind, rep,
                        "writer (%s) reported failure for %s but left a file that the reader loads as a DIFFERENT table" % (variant, kind))
+            # cfitsio's contract assumed by C08_write_fault_is_reported (Surfaces): the failing fwrite/fclose makes the call
+            # it was issued in, or a later one, report an error
+            if tag.startswith("libc:") and int(kv.get("fired", "0")) > 0 and not kind.startswith("libc:fflush") and int(kv.get("fcall", "-1")) >= 0:
+                stv = c.split("|")[1].split(); fcall = int(kv["fcall"])
+                if fcall < len(stv) and stv[fcall] == "1": bump("libc_fault_surfaced_in_the_same_call")
+                elif any(x == "1" for x in stv[fcall:]): bump("libc_fault_surfaced_in_a_later_call")
+                else:
+                    bump("libc_fault_not_surfaced")
+                    broken("cfitsio dropped a write/close error: no call at or after the one that issued the failing operation reported it (contract Surfaces)", **rep)
+            # does cfitsio go on writing after a failed write? (sticky ENOSPC: every later fwrite fails too and is counted)
+            if kind.startswith("libc:enospc_sticky") and int(kv.get("fired", "0")) > 1: bump("runs_where_cfitsio_went_on_writing_after_a_failed_write")
+            # the disk model (Model/FitsCrash.lean: diskAfter): file / no file under the name after the run
+            if variant in ("cpp", "c") and got == new and fv != "healthy":
+                if mdisk == "either": bump("disk_state_either_cleanup_call_reported_an_error_file_" + ("absent" if fv == "absent" else "present"))
+                elif (mdisk == "absent") != (fv == "absent"):
+                    broken("what the run left under the file name differs from the disk model (diskAfter)", model_disk=mdisk, **rep)
+                else: bump("disk_state_agrees_" + mdisk)
             if got == new: follows_new += 1
             elif got == pre3:
                 follows_pre3 += 1
@@ -182,7 +216,9 @@ def run(ctx):
         "cfitsio's disk driver never writes beyond the current end of file (measured per run: ops_creating_holes must be absent), so a file with a zeroed block is not a crash state of the writer; such files are read by both readers and classified in coverage.hole_states (rejected when the zeros hit a header or break the reader's count/knot validation, otherwise loaded as a different table: undetectable in a format without checksums); compared model vs. implementation only",
         "with fixes/C08-3.diff the writer issues all header keys before pixel data, so cfitsio never inserts a header block in front of written data and writes the file strictly front to back (measured per run: ops_rewriting and ops_rewriting_behind_first_block absent, i.e. every op-prefix / partial-op crash state is a byte prefix of the final file, the case C08_prefix_safe_partial speaks about); cfitsio 4.2's ffiblk drops I/O errors while it shifts data (its copy loop takes every status for end-of-file)",
         "the model reader may accept (as equal) a state the implementation rejects: a partially present last header block (cfitsio announces the HDU once the first byte of its END card is there and then fails on the data) or missing zero padding after an image smaller than three blocks (cfitsio reads those through whole-block buffers, larger ones directly); never the other way round",
-        "C08_prefix_safe_partial takes readCoreBytes (encode t) = t.core as a hypothesis; it is evaluated for every generated table (rt=1) and proved for one instance",
+        "C08_roundtrip / C08_prefix_safe / C08_crash_safe hold for tables satisfying Table.wf (1 <= ndim <= 999, counts and knots as the reader insists, values within their C types, extra cards 80 columns and not named END/ORDER/EXTNAME); wf is evaluated for every generated table (wf=1)",
+        "C08_crash_safe assumes the operation log writes front to back and ends in the encoding (evaluated on every recorded log: ao=1 fin=1); C08_write_fault_is_reported / C08_success_file_complete assume cfitsio's contract Surfaces (a failing fwrite/fclose is reported by the call that issued it or a later one; checked on every libc fault run; false for ffiblk, which the writer avoids: C08_keys_before_data)",
+        "disk model: fits_create_file(\"!path\") removes a previous file and creates an empty one, on failure the previous file is untouched or already removed; fits_delete_file / remove delete the file or, when they fail, leave it; the libc operations behind each call are arbitrary. With two faults (a failing write with later writes succeeding plus a failing clean-up call) a file which loads as a different table can stay behind: outside the property's quantifier (single failing operation), stated as the hypothesis failures = 1 of C08_single_fault_leaves_no_other_table",
         "realloc failures under cfitsio's memory driver are not injected (cfitsio 4.2 dereferences a null pointer in ffppx before photospline sees a status)",
         "an fflush error is not propagated by cfitsio (ffflsh ignores the driver's flush status); with glibc the data are written by the following fclose, whose status is checked after the repair",
     ]
